@@ -661,75 +661,29 @@ class BuiltinModelLoaderGen(ModelLoaderGen):
         assign_to: str,
         on_lookup_error: str,
     ):
-        if state.parent_path in state.type_checked_type_paths:
-            with state.builder(f"if {state.path[-1]!r} in {state.parent.v_data}:"):
-                self._gen_field_assignment(
-                    assign_to=assign_to,
-                    field_id=field.id,
-                    loader_arg=f"{state.parent.v_data}[{state.path[-1]!r}]",
-                    state=state,
+        if state.parent_path not in state.type_checked_type_paths:
+            # an object having the `.get` attribute is not necessarily a mapping, so the type is checked explicitly
+            with state.builder(f"if not isinstance({state.parent.v_data}, CollectionsMapping):"):
+                self._gen_raise_bad_type_error(
+                    state,
+                    f"TypeLoadError(CollectionsMapping, {state.parent.v_data})",
+                    namer=state.parent,
                 )
-            state.builder(
-                f"""
-                else:
-                    {on_lookup_error}
-                """,
-            )
-            return
-
-        with state.builder(
-            f"""
-            try:
-                getter = {state.parent.v_data}.get
-            except AttributeError:
-            """,
-        ):
-            self._gen_raise_bad_type_error(
-                state,
-                f"TypeLoadError(CollectionsMapping, {state.parent.v_data})",
-                namer=state.parent,
-            )
             state.type_checked_type_paths.add(state.parent_path)
 
-        self._gen_unexpected_exc_catching(state)
-        with state.builder("else:"):
-            if self._debug_trail == DebugTrail.DISABLE:
-                with state.builder(
-                    f"""
-                    value = getter({state.path[-1]!r}, sentinel)
-                    if value is sentinel:
-                        {on_lookup_error}
-                    else:
-                    """,
-                ):
-                    self._gen_field_assignment(
-                        assign_to=assign_to,
-                        field_id=field.id,
-                        loader_arg="value",
-                        state=state,
-                    )
+        with state.builder(f"if {state.path[-1]!r} in {state.parent.v_data}:"):
+            self._gen_field_assignment(
+                assign_to=assign_to,
+                field_id=field.id,
+                loader_arg=f"{state.parent.v_data}[{state.path[-1]!r}]",
+                state=state,
+            )
+        state.builder(
+            f"""
             else:
-                state.builder(
-                    f"""
-                    try:
-                        value = getter({state.path[-1]!r}, sentinel)
-                    """,
-                )
-                self._gen_unexpected_exc_catching(state)
-                with state.builder("else:"):  # noqa: SIM117
-                    with state.builder(
-                        f"""
-                        if value is sentinel:
-                            {on_lookup_error}
-                        else:
-                        """,
-                    ):
-                        self._gen_field_assignment(
-                            assign_to=assign_to,
-                            field_id=field.id,
-                            loader_arg="value",
-                            state=state,
-                        )
+                {on_lookup_error}
+            """,
+        )
 
     def _gen_field_assignment(
         self,
